@@ -128,7 +128,8 @@ Changes a check missed when it was first run against them, and what was added so
   C01 and C07); C04r7-1 / C09r7-1 / C05r7-1 (key or strip decision taken before the body await): the key latched, replaced and
   cleared while an upload is held mid-body (`env_after_head` in `pipe.run_case`); C04r7-2 (key published before the attestation
   answer): a slow attestation with requests signed in the meantime (`c09.keepalive_signing`); C05r7-2 (per-second date cache
-  published stamp first): simultaneous requests after an idle gap (`c05.concurrent_after_idle`); C07r7-2 / C14r7-2 (connection
+  published stamp first): simultaneous requests after an idle gap (`c05.concurrent_after_idle`), made reliable by running them
+  with a wall clock that takes 25 ms to read (`clockshim.c`, `VERIF_CLOCK_DELAY_US`); C07r7-2 / C14r7-2 (connection
   context / host connection built lazily or by an unjoined task): first requests that arrive before the host has accepted
   (`c14.first_request_before_host_connects`); C09r7-2 (`try_lock` on the loaded object): in the running kernel, 90 policy switches
   through `update_*_redirect_policy` while three tasks call `redirector::lookup_audit` on the same object, the policy map read
@@ -142,8 +143,10 @@ Changes a check missed when it was first run against them, and what was added so
   C16r7-1 (temp file opened before the awaited collection): the deadline handler held at its last status read while the remaining
   subsystems report and publish (`prov overlap`), with a reader polling `status.tag` for one inode showing two contents; the
   inode-level model `Gpa.TagInodes` with `published_file_keeps_its_content` and the fact `tagTmpThenAwait` came with it;
-  C16r7-2 (three separate reads of the flags): reported through the correspondence only (`no-failing-input-found`): the message
-  trace of a query differs from the model's single `GetState`. Two changes to hook H3 in /repo came out of this round (a panic in
+  C16r7-2 (three separate reads of the flags): first reported through the correspondence only (the message trace of a query
+  differs from the model's single `GetState`), then with a failing input: while the query's first read of the flags is
+  handled, "redirector ready" and "key latch reset" are queued in that order (`pqhook2`), so that a text naming both names a set
+  that was at no instant the set of subsystems not ready (`c16.placed_swap_during_query`). Two changes to hook H3 in /repo came out of this round (a panic in
   the hook no longer poisons it; the hook closure runs outside its lock so that holding one actor does not hold the others).
 * Round 8 — 15 of 20 were reported by the checks as they stood (C02r8-1/-2, C03r8-1, C03r8-2 and C06r8-1 through the simulator and the
   running kernel, C08r8-1/-2, C17r8-1/-2, C18r8-2, C19r8-1, C20r8-1/-2 with failing inputs; C15r8-1/-2 only through their generated
